@@ -7,19 +7,20 @@ LEVEL = "model_checking"
 MANIFEST = dict(
     category=LEVEL, design_ref="DESIGN.md §5 C08",
     text="DposLib.tla transcribes the confirmation arithmetic of consensus/impl/dpos/lib.go literally (addConfirmInfo, getPreLIB with its uint16 "
-         "counter and the stop at the first zero, calcLIB's (len-1)/3-th smallest proposal, gc, the rollback window, save/load at restart, the lazily "
-         "attached status) together with the chain service's use of it (refusal of blocks at or below the LIB, veto of reorganisations below it) and the "
-         "block factory's Confirms = no - lpbNo.  TLC checks LibOnMain, LibMonotone, Final, NoForkBelowLib, LibQuorum, Agreement and "
-         "RestoreEqualsRecompute exhaustively for the full protocol with 3 producers (small bounds) and for scripted block trees (every delivery order to "
-         "one or two full nodes, restarts at every point), and by simulation for 3-4 producers with an equivocating producer.  Every transition of a small "
-         "instance (edge cover), simulated deep behaviours, the scripted trees and TLC's counterexamples of the as-coded oddities are replayed on real "
-         "nodes whose consensus is the real DPoS object: real signed blocks in slots their producers own, own blocks built by the real block factory, "
-         "restarts on the same stores.  After every step the LIB, the proposals, the whole confirm list, LpbNo and the number the veto sees are compared "
-         "with the specification, and the property is evaluated on the real node itself (LIB on the main chain by height index, monotone, nothing at or "
-         "below a reported LIB replaced or accepted, quorum of distinct confirming producers, restart keeps the status, agreement of the nodes' LIBs).",
+         "counter and the stop at the first zero, calcLIB's (len-1)/3-th smallest proposal, gc, the rollback window and the reset of proposals above "
+         "the rollback target, save/load at restart, the LIB that is only ever raised) together with the chain service's use of it (refusal of blocks at "
+         "or below the LIB, veto of reorganisations below it) and the block factory's Confirms = no - lpbNo.  TLC checks LibOnMain, LibMonotone, Final, "
+         "NoForkBelowLib, LibQuorum, Agreement and RestoreEqualsRecompute exhaustively for the full protocol with 3 producers (small bounds) and for "
+         "scripted block trees (every delivery order to one or two full nodes, restarts at every point), and by simulation for 3-4 producers with an "
+         "equivocating producer.  Every transition of the tree instances (edge cover), simulated deep behaviours and TLC's counterexamples of the open "
+         "finding (unvalidated Confirms field) are replayed on real nodes whose consensus is the real DPoS object: real signed blocks in slots their "
+         "producers own, own blocks built by the real block factory, restarts on the same stores.  After every step the LIB, the proposals, the whole "
+         "confirm list, LpbNo and the number the veto sees are compared with the specification, and the property is evaluated on the real node itself "
+         "(LIB on the main chain by height index, monotone, nothing at or below a reported LIB replaced or accepted, quorum of distinct confirming "
+         "producers, restart keeps the status, agreement of the nodes' LIBs).",
     note="one node per process at a time: the nodes of a behaviour run one after the other over the same pre-built block tree; blocks reach a node "
          "parents first (orphans: C05); all blocks are valid and empty; BP set = genesis list (heights < 300); in-memory verifdb; restarts at step "
-         "boundaries (crash points inside a step: C06)",
+         "boundaries (crash points inside a step: C06); the model contains the repairs b495bde5, a4f2be36, c846cf0d (Fixes = AllFixes)",
     technique="TLA+/TLC exhaustive model + simulation; replay of TLC transitions, simulated behaviours and counterexamples into real nodes")
 SPEC_DIR = os.path.join(vlib.SPEC, "consensus")
 T0 = [0.0]
@@ -161,7 +162,7 @@ def replay(c, exe, behs, tag, nshards=8, timeout=2400):
     nshards = max(1, min(nshards, len(behs)))
     outs = [os.path.join(c.work, "dpos_out_%s_%d.json" % (tag, i)) for i in range(nshards)]
     rs = run_shards(exe, nshards, lambda i: {"VERIF_IN": inpath, "VERIF_OUT": outs[i], "VERIF_SEED": c.seed, "VERIF_TIER": c.tier}, timeout)
-    nodes = steps = 0
+    nodes = steps = div = 0
     nviol = 0
     for i, (rc, out) in enumerate(rs):
         if rc != 0 and not os.path.exists(outs[i]):
@@ -174,9 +175,11 @@ def replay(c, exe, behs, tag, nshards=8, timeout=2400):
         nviol += len(r.get("violations") or [])
         nodes += (r.get("extra") or {}).get("nodes_run", 0)
         steps += (r.get("extra") or {}).get("steps_run", 0)
+        div += (r.get("extra") or {}).get("divergences", 0)
         if rc != 0 and not r.get("violations"):
             raise vlib.Infra("dpos harness shard %d failed:\n%s" % (i, "\n".join(l for l in out.splitlines() if not l.startswith('{"level'))[-3000:]))
-    c.notes.append("%s: %d behaviours replayed, %d node runs, %d node steps, %d violation reports" % (tag, len(behs), nodes, steps, nviol))
+    c.notes.append("%s: %d behaviours replayed, %d node runs, %d node steps, %d node runs left the specification, %d violation reports (each signature at most 3 times per shard)" % (
+        tag, len(behs), nodes, steps, div, nviol))
     return nodes, steps
 
 
